@@ -11,6 +11,7 @@ import (
 	"net/netip"
 	"strings"
 	"sync"
+	"sync/atomic"
 	"time"
 
 	"github.com/irai/packet"
@@ -63,6 +64,32 @@ func guarded(f func() string) string {
 	return res
 }
 
+// blocked marks a call that returned but left its handler unusable: the follow-up call on the same
+// handler (probe) did not return normally — a lock taken by the call is still held.
+const blocked = " +blocked"
+
+// guardedProbe is guarded(f) followed, inside the same watchdog, by probe().
+func guardedProbe(f func() string, probe func()) string {
+	var first atomic.Value
+	res := guarded(func() string {
+		r := f()
+		first.Store(r)
+		probe()
+		return r
+	})
+	if r, ok := first.Load().(string); ok && (res == "hang" || res == "panic") {
+		if res == "hang" {
+			hangs-- // parked on a lock, not spinning
+		}
+		return r + blocked
+	}
+	return res
+}
+
+// blockedOps counts, per operation, the calls that left their handler blocked; every witness costs a
+// full watchdog period, so an operation is given up after two of them (the others go on).
+var blockedOps = map[string]int{}
+
 func errClass(err error) string {
 	switch {
 	case err == nil:
@@ -83,6 +110,9 @@ func errClass(err error) string {
 
 func totalOracle(what string, impl *string) func() (string, string) {
 	return func() (string, string) {
+		if strings.HasSuffix(*impl, blocked) {
+			return what + ": the call returned (" + strings.TrimSuffix(*impl, blocked) + ") but left the handler blocked: the next call on the same handler that takes the handler lock does not return normally (lock still held on that path)", ""
+		}
 		if *impl == "panic" || *impl == "hang" {
 			return what + ": the call did not return normally (" + *impl + ")", ""
 		}
@@ -130,6 +160,8 @@ func frame4(payload []byte) []byte {
 	return b
 }
 
+var probeIP = netip.MustParseAddr("192.0.2.77")
+
 var (
 	srcLLA   = netip.MustParseAddr("fe80::bb:9")
 	srcMcast = netip.MustParseAddr("ff02::1")
@@ -176,6 +208,7 @@ func Eval(c *core.Ctx, line string) *core.Case {
 		}
 		r := string(f[1][2])
 		nl := fmt.Sprintf("ndp.icmp6 %s%s%s %s", u, k, r, f[2])
+		var done6 atomic.Value // set once ProcessPacket has returned (FindRouter below takes the handler lock)
 		impl := guarded(func() string {
 			h6, _ := icmp_spoofer.New6(session)
 			if r == "1" {
@@ -194,12 +227,20 @@ func Eval(c *core.Ctx, line string) *core.Case {
 					ns++
 				}
 			}
+			done6.Store(fmt.Sprintf("ok ret=%s ns=%d", errClass(err), ns))
 			ra := "-"
 			if rt := h6.FindRouter(src); rt.Addr.IP.IsValid() {
 				ra = strings.ReplaceAll(ndpgen.Canon(rt.Options), " ", "|")
 			}
 			return fmt.Sprintf("ok ret=%s ns=%d ra=%s", errClass(err), ns, ra)
 		})
+		if d, ok := done6.Load().(string); ok && (impl == "hang" || impl == "panic") {
+			if impl == "hang" {
+				hangs--
+			}
+			impl = d + blocked
+			blockedOps[f[0]]++
+		}
 		return &core.Case{Line: nl, Impl: impl, Trivial: len(p) < 8,
 			Cmp: func(a, b string) bool {
 				return ndpgen.SameModuloPuny(strings.ReplaceAll(a, "|", " "), strings.ReplaceAll(stripClass(b), "|", " "))
@@ -230,7 +271,7 @@ func Eval(c *core.Ctx, line string) *core.Case {
 			Oracle: totalOracle("ParseHopByHopExtensions("+f[1]+")", &impl)}
 	case "ndp.arp":
 		p := core.UnHex(f[1])
-		impl := guarded(func() string {
+		impl := guardedProbe(func() string {
 			eth := make([]byte, 14+len(p))
 			copy(eth[0:6], []byte{0xff, 0xff, 0xff, 0xff, 0xff, 0xff})
 			copy(eth[6:12], peerMAC)
@@ -239,7 +280,12 @@ func Eval(c *core.Ctx, line string) *core.Case {
 			fr := session.VerifFrame(eth, 14, packet.PayloadARP)
 			err := harp.ProcessPacket(fr)
 			return "ok ret=" + errClass(err)
-		})
+		}, func() { harp.IsHunting(probeIP) }) // IsHunting takes the handler's write lock
+		if strings.HasSuffix(impl, blocked) {
+			// the shared handler is gone: later cases get a fresh one
+			harp, _ = arp_spoofer.New(session)
+			blockedOps[f[0]]++
+		}
 		return &core.Case{Line: line, Impl: impl, Trivial: len(p) < 28,
 			Cmp:    func(a, b string) bool { return a == stripClass(b) },
 			Oracle: totalOracle("arp.ProcessPacket", &impl)}
@@ -250,7 +296,7 @@ func Eval(c *core.Ctx, line string) *core.Case {
 var hangs int
 
 func add(c *core.Ctx, class, line string) {
-	if hangs >= 3 {
+	if hangs >= 3 || blockedOps[strings.SplitN(line, " ", 2)[0]] >= 2 {
 		return
 	}
 	if cs := Eval(c, line); cs != nil {
